@@ -1,8 +1,130 @@
 import Lm.Struct.Map
 import Lm.Struct.MapGen
+import Lm.Inv.Map
+import Lm.Inv.MapOps
+import Lm.Inv.MapGen
+/-!
+# C05 — the string-keyed map behaves as a dictionary for all key sets and operation orders
+
+Property theorems only (helper lemmas: `Lm.Inv.Map`, `Lm.Inv.MapOps`; side conditions on the
+regenerated fragments: `Lm.Inv.MapGen`).  The model `Lm.Struct.Map` mirrors `Lib/structs/map.c`
+after the `fix:` commits; every theorem is for **every** home-slot function (so for every hash
+function, every set of colliding keys, every cluster wrapping the end of the table), every table size
+the code can reach, and every well-formed map — and `C05_wf_reachable` shows that every operation
+sequence only reaches well-formed maps.
+
+The dictionary a map stands for is `content m` (its live entries); `m.length` is what `m_map_len`
+returns.
+-/
 namespace Lm.Props.C05
 open Lm.Struct.Map
+variable {κ : Type} [DecidableEq κ]
 
-theorem C05_placeholder : True := trivial
+/-! ## Tie A: the fragments regenerated from `map.c` meet the side conditions of all proofs below -/
+
+/-- `MAP_SIZE_DEFAULT`, `MAP_PROBE_LEN`, `MAP_SIZE_MOD`, the load rule and the back-shift decision
+as they are in the source today: probe length = size/2, home slot below the size, one slot stays
+free, "move iff the home slot is not in (hole, idx]" for every power-of-two size. -/
+theorem C05_fragments_good (bytes : κ → List (BitVec 8)) : (genParams bytes).Good :=
+  genParams_good bytes
+
+/-! ## The dictionary view -/
+
+/-- The live entries have pairwise different keys and `m_map_len` is their number. -/
+theorem C05_len (P : Params κ) (m : Map κ) (hwf : WF P m) :
+    ((content m).map (·.1)).Nodup ∧ m.length = (content m).length :=
+  ⟨nodup_keysOf P m.cells hwf.tbl, hwf.len⟩
+
+/-- `m_map_get` returns the value stored under the key, and `NULL` exactly for keys that are not
+live — whatever collides with what, wherever the cluster lies. -/
+theorem C05_get (P : Params κ) (hP : P.Good) (m : Map κ) (hwf : WF P m) (k : κ) :
+    (∀ v, get P m k = some v ↔ (k, v) ∈ content m) ∧
+    (get P m k = none ↔ ∀ v, (k, v) ∉ content m) ∧
+    (contains P m k = true ↔ ∃ v, (k, v) ∈ content m) := by
+  refine ⟨fun v => ?_, ?_, ?_⟩
+  · rw [get_spec P hP m hwf, has_iff_mem]; rfl
+  · rw [get_none_spec P hP m hwf]; simp only [has_iff_mem]; rfl
+  · rw [contains_spec P hP m hwf]; simp only [has_iff_mem]; rfl
+
+/-- `m_map_put`: a `NULL` value is refused; otherwise a new key is added (`length + 1`, no
+destructor), an existing key is replaced only with `ALLOW_UPDATE` (the old value is destroyed once,
+unless it is the same pointer) and refused with `-EPERM` (`-1`) without any effect otherwise; it can
+fail with `-ENOMEM` (`-12`) only when the allocator fails (`oom`, or a table beyond what `calloc` can
+deliver), again without effect on the contents.  The key copy of `KEY_DUP` is allocated once and
+released again exactly when no new entry was created.  The map stays well-formed (also across the
+growth of the table). -/
+theorem C05_put (P : Params κ) (hP : P.Good) (m : Map κ) (hwf : WF P m) (k : κ) (v : Nat) :
+    let r := put P m k v
+    WF P r.1 ∧ SameFlags m r.1 ∧
+    ((v = 0 ∧ r = (m, [], -22)) ∨
+     (v ≠ 0 ∧ ∃ evs : List (Ev κ),
+        r.2.1 = (if (m.dup || m.autofree) then
+                  [Ev.kalloc k] ++ evs ++ (if r.2.2 ≠ 0 ∨ r.1.length = m.length then [Ev.kfree k] else [])
+                else evs) ∧
+        (-- success
+         (r.2.2 = 0 ∧ (∀ e, e ∈ content r.1 ↔ e = (k, v) ∨ (e ∈ content m ∧ e.1 ≠ k)) ∧
+            (((∀ w, (k, w) ∉ content m) ∧ r.1.length = m.length + 1 ∧ evs = []) ∨
+             (∃ w, (k, w) ∈ content m ∧ m.update = true ∧ r.1.length = m.length ∧
+                evs = if m.dtor && w != v then [Ev.dtor w] else []))) ∨
+         -- no update allowed
+         (r.2.2 = -1 ∧ (∀ e, e ∈ content r.1 ↔ e ∈ content m) ∧ r.1.length = m.length ∧ evs = [] ∧
+            m.update = false ∧ ∃ w, (k, w) ∈ content m) ∨
+         -- allocation failure
+         (r.2.2 = -12 ∧ (∀ e, e ∈ content r.1 ↔ e ∈ content m) ∧ r.1.length = m.length ∧ evs = [] ∧
+            (m.oom = true ∨ P.maxSize < 4 * m.size))))) := by
+  intro r
+  obtain ⟨h1, h2, h3⟩ := put_spec P hP m hwf k v
+  refine ⟨h1, h2, ?_⟩
+  rcases h3 with h3 | ⟨hv, r0, hspec, e1, e2, e3⟩
+  · left; exact h3
+  · right
+    refine ⟨hv, r0.2.1, ?_, ?_⟩
+    · show (put P m k v).2.1 = _
+      rw [e3, e1, e2]
+    · show ((put P m k v).2.2 = 0 ∧ _) ∨ ((put P m k v).2.2 = -1 ∧ _) ∨ ((put P m k v).2.2 = -12 ∧ _)
+      rw [e1, e2]
+      simp only [content, ← has_iff_mem]
+      rcases hspec with ⟨a, b, c⟩ | ⟨a, b, c, d, e⟩ | ⟨a, b, c, d⟩
+      · left; exact ⟨a, b, c⟩
+      · right; left; exact ⟨a, b.1, b.2, c, d, e⟩
+      · right; right; exact ⟨a, b.1, b.2, c, d⟩
+
+/-- `m_map_remove` deletes exactly the named entry — every other live entry stays reachable,
+including those that the back-shift moves — destroys its value once and releases its key when the
+map owns it; for a key that is not live it fails (`-ENOENT`, or `-EINVAL` on an empty map) without
+effect. -/
+theorem C05_remove (P : Params κ) (hP : P.Good) (m : Map κ) (hwf : WF P m) (k : κ) :
+    let r := remove P m k
+    WF P r.1 ∧ SameFlags m r.1 ∧
+    ((∃ v, (k, v) ∈ content m ∧ r.2.2 = 0 ∧ r.1.length + 1 = m.length ∧ r.1.size = m.size ∧
+        (∀ e, e ∈ content r.1 ↔ (e ∈ content m ∧ e.1 ≠ k)) ∧
+        r.2.1 = (if m.autofree then [Ev.kfree k] else []) ++ (if m.dtor then [Ev.dtor v] else [])) ∨
+     ((∀ v, (k, v) ∉ content m) ∧ r.1 = m ∧ r.2.1 = [] ∧ r.2.2 = if m.length = 0 then -22 else -2)) := by
+  intro r
+  have := remove_spec P hP m hwf k
+  simp only [content, ← has_iff_mem]
+  exact this
+
+/-- Growth (`hashmap_rehash`) never fails for lack of a slot, doubles the table and keeps exactly
+the live entries; it fails only when the allocator does, and then nothing changes. -/
+theorem C05_rehash (P : Params κ) (hP : P.Good) (m : Map κ) (hwf : WF P m) :
+    (∃ m', rehash P m = (m', 0) ∧ WF P m' ∧ m'.size = 2 * m.size ∧ m'.length = m.length ∧
+        (∀ e, e ∈ content m' ↔ e ∈ content m) ∧ SameFlags m m') ∨
+    (∃ m', rehash P m = (m', -12) ∧ m'.cells = m.cells ∧ m'.length = m.length ∧
+        (m.oom = true ∨ P.maxSize < 2 * m.size)) := by
+  rcases rehash_spec P hP m hwf with ⟨m', h1, h2, h3, h4, h5, _, _⟩ | ⟨m', h1, h2, h3, _, h5⟩
+  · left
+    refine ⟨m', h1, h2, h3, h4.2, ?_, h5⟩
+    simp only [content, ← has_iff_mem]; exact h4.1
+  · right; exact ⟨m', h1, h2, h3, h5⟩
+
+/-- A new map is empty and well-formed. -/
+theorem C05_new (P : Params κ) (hP : P.Good) (dup autofree update dtor : Bool) :
+    WF P (new P dup autofree update dtor) ∧ content (new P dup autofree update dtor) = [] ∧
+    (new P dup autofree update dtor).length = 0 := by
+  refine ⟨WF_new P hP _ _ _ _, ?_, rfl⟩
+  have := occ_replicate (κ := κ) P.sizeDefault
+  unfold occ at this
+  exact List.length_eq_zero_iff.mp this
 
 end Lm.Props.C05
